@@ -307,7 +307,7 @@ namespace vh {
         c.rr_quantum = (int) P.set("sim.rr_quantum", (int64_t) r.logu(5, 2000));
         c.time_quantum_ns = (uint64_t) P.set("sim.time_quantum_ns", (int64_t) r.logu(20, 5000));
         c.spin_limit = (uint32_t) P.set("sim.spin_limit", (int64_t) r.logu(50, 1000));
-        c.max_steps = (uint64_t) P.set("sim.max_steps", 6000000);
+        c.max_steps = (uint64_t) P.set("sim.max_steps", 3000000);
         // faults: each allowed kind enabled in ~30% of runs
         bool f_sp = (allowed_faults & FAULT_SPURIOUS) && r.chance(30, 100);
         bool f_tf = (allowed_faults & FAULT_TRYFAIL) && r.chance(30, 100);
